@@ -382,7 +382,9 @@ def resolveGroupKey (nvis : Nat) (visible : List CTarget) (ts : List CTarget) (k
 def resolveOrderKey (ntargets : Nat) (named : List CTarget) (ts : List CTarget) (k : CKey) (unresolved : CM CExpr) :
     CM (List CTarget × Nat) :=
   let byExpr (ce : CExpr) : CM (List CTarget × Nat) :=
-    match indexOfExpr ts ce with
+    if !ce.cols.isEmpty && !ce.aggs.isEmpty then
+      .error (.compile "mixed aggregates and non-aggregates are not allowed")
+    else match indexOfExpr ts ce with
     | some i => .ok (ts, i)
     | none => .ok (ts ++ [⟨ce, none, ce.isAggregate⟩], ts.length)
   match k with
@@ -517,7 +519,7 @@ def compileSelect (ctx : Ctx) : Nat → TableDef → Select → CM Compiled
       | .sub q =>
         (match compileSelect ctx fuel outer q with
          | .error x => .error x
-         | .ok (.pivot _ _ _) => .error (.py "AttributeError")
+         | .ok (.pivot _ _ _) => .error (.compile "PIVOT BY is not supported in subqueries")
          | .ok (.query cq) =>
            match execSelect cq with
            | .error x => .error (.py x)
@@ -586,6 +588,7 @@ def compileSelect (ctx : Ctx) : Nat → TableDef → Select → CM Compiled
             | .error x => .error x
             | .ok (ch, h4) =>
               if !ch.isAggregate then .error (.compile "the HAVING clause must be an aggregate expression")
+              else if !ch.cols.isEmpty then .error (.compile "mixed aggregates and non-aggregates are not allowed")
               else .ok (ts ++ [⟨ch, none, true⟩], some gidx, some ts.length, h4)
     match grp with
     | .error x => .error x
@@ -593,7 +596,7 @@ def compileSelect (ctx : Ctx) : Nat → TableDef → Select → CM Compiled
     -- ORDER BY
     let ord : CM (List CTarget × Option (List (Nat × Bool)) × Nat) :=
       if sel.orderBy.isEmpty then .ok (ts1, none, h5)
-      else match compileOrderKeys ctx tbl subq (distinctNames ts1) ts1 sel.orderBy ts1 h5 with
+      else match compileOrderKeys ctx tbl subq (ts1.filter (fun t => t.name.isSome)).length ts1 sel.orderBy ts1 h5 with
         | .error x => .error x
         | .ok (ts, spec, h) => .ok (ts, some spec, h)
     match ord with
